@@ -218,14 +218,35 @@ fn run(line: &str) -> String {
     out
 }
 
+
+// watchdog: a request that does not answer within FX_REQ_TIMEOUT_MS (default 20 s) ends the process with status 124;
+// the driver reports it as `abort timeout` for that request and goes on with the next one
+static BUSY_SINCE_MS: std::sync::atomic::AtomicU64 = std::sync::atomic::AtomicU64::new(0);
+fn now_ms() -> u64 {
+    std::time::SystemTime::now().duration_since(std::time::UNIX_EPOCH).map(|d| d.as_millis() as u64).unwrap_or(1)
+}
+fn start_watchdog() {
+    let limit: u64 = std::env::var("FX_REQ_TIMEOUT_MS").ok().and_then(|s| s.parse().ok()).unwrap_or(20000);
+    std::thread::spawn(move || loop {
+        std::thread::sleep(std::time::Duration::from_millis(250));
+        let since = BUSY_SINCE_MS.load(std::sync::atomic::Ordering::Relaxed);
+        if since != 0 && now_ms().saturating_sub(since) > limit {
+            std::process::exit(124);
+        }
+    });
+}
+
 fn main() {
+    start_watchdog();
     std::panic::set_hook(Box::new(|_| {}));
     let stdin = std::io::stdin();
     let stdout = std::io::stdout();
     let mut w = std::io::BufWriter::new(stdout.lock());
     for line in stdin.lock().lines() {
         let line = line.unwrap();
+        BUSY_SINCE_MS.store(now_ms(), std::sync::atomic::Ordering::Relaxed);
         let r = run(&line);
+        BUSY_SINCE_MS.store(0, std::sync::atomic::Ordering::Relaxed);
         writeln!(w, "{}", r).unwrap();
         w.flush().unwrap();
     }
